@@ -15,11 +15,18 @@
    destructor issues `del` on the object it owns).  The ledger `log` records every
    destructor call (LFin) and every release of memory (LFree).
 
-   Two switches re-state the two halves of the D18 repair as found in the C text
-   (tools/genx_life.py reads them off src/GC.c into Generated.v):
+   A destructor may also allocate (new inside a destructor): `ESpawn o cs` declares that the
+   destructor of o allocates the managed plain objects cs; alloc_child is the alloc + GC_Set made
+   from inside the destructor, including the collection it may trigger (slot order and marks of
+   those collections are taken from the input queue `obsq`, set by `EObs`).
+
+   Three switches re-state the repairs as found in the C text (tools/genx_life.py reads them off
+   src/GC.c into Generated.v):
      rem_fix   : GC_Rem_Ptr, on finding the pointer in the pending list, NULLs the entry AND
-                 finalises the object (pinned code: only NULLs it, then looks in the table)
-     sweep_fix : GC_Sweep's finaliser loop NULLs the entry BEFORE calling the destructor
+                 finalises the object (pinned code: only NULLs it, then looks in the table)    (D18)
+     sweep_fix : GC_Sweep's finaliser loop NULLs the entry BEFORE calling the destructor       (D18)
+     defer_fix : GC_Set does not start a collection while a sweep is running (pinned code: the
+                 nested sweep takes over the ONE pending list and leaves it empty)             (D22)
    MODEL ONLY: no proofs in this file. *)
 From Coq Require Import List Arith Bool PeanoNat.
 Import ListNotations.
